@@ -45,6 +45,9 @@ class UpdateExtractor(BaseExtractor):
                 continue
 
             if tgt_flag:
+                if segment.type == "keyword":
+                    # UPDATE ONLY tab (postgres), the table is yet to come
+                    continue
                 if write_table := self.find_table(segment):
                     holder.add_write(write_table)
                 tgt_flag = False
